@@ -20,7 +20,8 @@ open Galaxy Galaxy.Netfilter
 
 /-- The shape of SetupPortMapping / CleanPortMapping / SetupPortMappingForAllPods as factgen reads it
     from pkg/network/portmapping/iptables.go: mark rule and chain lines first, restore before the
-    KUBE-HOSTPORTS EnsureRule loop; clean deletes the jump rules, then flushes (`:chain`) and deletes
+    KUBE-HOSTPORTS EnsureRule loop; clean first makes sure every chain exists (EnsureChain), deletes the jump
+    rules, then flushes (`:chain`) and deletes
     (`-X`) every chain; the full sync ensures the basic rules first and flushes + deletes every stale
     KUBE-HP-* chain that is not active.  A source change that flips one of them fails this theorem. -/
 theorem fact_generator_shape :
@@ -32,6 +33,7 @@ theorem fact_generator_shape :
       && !Generated.Netfilter.cleanWritesMark && Generated.Netfilter.cleanLowersProto
       && Generated.Netfilter.cleanNamesChain && Generated.Netfilter.cleanDeclaresChain
       && Generated.Netfilter.cleanDeletesChain && Generated.Netfilter.cleanCollectsJumpRules
+      && Generated.Netfilter.cleanEnsuresChainsFirst
       && Generated.Netfilter.cleanDeletesJumpRulesBeforeRestore && Generated.Netfilter.cleanRestores
       && Generated.Netfilter.cleanChainsBeforeRules
       && Generated.Netfilter.syncEnsuresBasicFirst && Generated.Netfilter.syncReadsExisting
@@ -263,46 +265,76 @@ theorem fact_server_protocol :
 /-- "Setting up … and cleaning them up again leaves no chain or rule of that pod behind", at the level of the
     daemon and for a setup that FAILS: whichever iptables call of SetupPortMapping fails (k = 0 the restore,
     k = i+1 the EnsureRule of port i), after the ADD's own cleanup no chain of the pod exists, KUBE-HOSTPORTS holds
-    none of its rules, every other chain except KUBE-MARK-MASQ is as before, and (k ≥ 1) the port file is gone.
+    none of its rules, every other chain except KUBE-MARK-MASQ is as before, and the port file is gone.
     This rests on the port file being written before SetupPortMapping (`portFileSavedBeforeSetup`): the cleanup
-    removes exactly what the file lists. -/
+    removes exactly what the file lists — and on CleanPortMapping creating missing chains first
+    (`cleanEnsuresChainsFirst`), without which the case k = 0 fails, see `failed_restore_keeps_port_file_before_fix`. -/
 theorem failed_add_leaves_nothing (hash : String → String) (T : Table) (ps : List Port) (k : Nat)
     (hwf : wfPorts ps = true) (hinj : HashInjOn hash (ps.map encode)) (hne : ps ≠ []) (hkl : k ≤ ps.length)
     (hkh : Tbl.has T hostportsChain = true)
-    (habs : ∀ p ∈ ps, Tbl.get T (chainName hash p) = none)
     (hunref : ∀ p ∈ ps, referenced T (chainName hash p) = false) :
     (addPod hash (some k) ⟨T, none⟩ ps).2 = false ∧
+    (addPod hash (some k) ⟨T, none⟩ ps).1.file = none ∧
     (∀ p ∈ ps, Tbl.get (addPod hash (some k) ⟨T, none⟩ ps).1.T (chainName hash p) = none) ∧
     (∀ p ∈ ps, jumpRule hash p ∉ (Tbl.get (addPod hash (some k) ⟨T, none⟩ ps).1.T hostportsChain).getD []) ∧
     (∀ c, c ≠ markMasqChain → c ∉ ps.map (chainName hash) →
-      Tbl.get (addPod hash (some k) ⟨T, none⟩ ps).1.T c = Tbl.get T c) ∧
-    (0 < k → (addPod hash (some k) ⟨T, none⟩ ps).1.file = none) := by
+      Tbl.get (addPod hash (some k) ⟨T, none⟩ ps).1.T c = Tbl.get T c) := by
   obtain ⟨rs, hk⟩ := has_iff.mp hkh
-  obtain ⟨h1, h2, g⟩ := failedAdd_spec hash T ps rs k hne hkl hk (chainNames_nodup hwf hinj) habs hunref
+  obtain ⟨h1, h2, g⟩ := failedAdd_spec hash T ps rs k hne hkl hk (chainNames_nodup hwf hinj) hunref
   have hkn : hostportsChain ∉ ps.map (chainName hash) := fun h => by
     have := names_prefix h; rw [hostports_no_prefix] at this; cases this
-  refine ⟨h1, ?_, ?_, ?_, ?_⟩
+  refine ⟨h1, h2, ?_, ?_, ?_⟩
   · intro p hp; rw [g]; simp [List.mem_map_of_mem hp]
   · intro p hp
     rw [g]
     simp only [hkn, if_false, markMasq_ne_hostports.symm, hk, Option.getD_some]
     exact jump_not_in_prior hk hunref _ (List.mem_map_of_mem hp)
   · intro c hc hcn; rw [g]; simp [hc, hcn]
-  · intro hpos
-    rw [h2]; simp [Nat.pos_iff_ne_zero.mp hpos]
 
-/-- Finding `cleanup-fails-when-chains-missing` (replayed as corpus/C14/srv-cleanup-fails-when-chains-missing.ops):
-    when it is the restore itself that fails (k = 0) nothing was created, but the port file was written; the cleanup
-    then fails at its first `iptables -C` (jump target chain missing), so the file stays — and every later DEL fails
-    the same way until the GC removes the file. -/
-theorem failed_restore_keeps_port_file_counter :
-    ∃ (T : Table) (ps : List Port),
-      (addPod id (some 0) ⟨T, none⟩ ps).1.file = some ps ∧
-      (delPod id none (addPod id (some 0) ⟨T, none⟩ ps).1).2 = false ∧
-      (delPod id none (addPod id (some 0) ⟨T, none⟩ ps).1).1.file = some ps ∧
-      (gcPod id (addPod id (some 0) ⟨T, none⟩ ps).1).file = none := by
-  refine ⟨[("KUBE-HOSTPORTS", [])], [⟨80, "TCP", 8080, "web-0", "10.0.0.6", ""⟩], ?_⟩
-  decide
+/-- The former finding `cleanup-fails-when-chains-missing` (fixed in /repo by a5e6428; regression replays
+    corpus/C14/srv-cleanup-fails-when-chains-missing.ops and clean-not-set-up.ops): for the code BEFORE the fix
+    (CleanPortMapping without the EnsureChain loop, `…With false`), when it is the restore that fails the cleanup
+    fails at its first `iptables -C` (jump target chain missing), the port file stays, and every later DEL fails
+    the same way. -/
+theorem failed_restore_keeps_port_file_before_fix (hash : String → String) (T : Table) (ps : List Port)
+    (hne : ps ≠ []) (habs : ∀ p ∈ ps, Tbl.get T (chainName hash p) = none) :
+    addPodWith false hash (some 0) ⟨T, none⟩ ps = (⟨T, some ps⟩, false) ∧
+    delPodWith false hash none ⟨T, some ps⟩ = (⟨T, some ps⟩, false) :=
+  failedRestore_prefix_spec hash T ps hne habs
+
+/-- Cleanup can always be repeated: from ANY table with KUBE-HOSTPORTS in which no rule refers to the pod's chains
+    — in particular when those chains do not exist (after a failed restore, after an earlier cleanup) —
+    CleanPortMapping succeeds, removes the chains if they were there and changes nothing else; running it again
+    succeeds again and changes nothing. -/
+theorem cleanup_idempotent (hash : String → String) (T : Table) (ps : List Port)
+    (hwf : wfPorts ps = true) (hinj : HashInjOn hash (ps.map encode))
+    (hkh : Tbl.has T hostportsChain = true)
+    (hunref : ∀ p ∈ ps, referenced T (chainName hash p) = false) :
+    (clean hash T ps).2 = none ∧
+    (∀ c, Tbl.get (clean hash T ps).1 c = if c ∈ ps.map (chainName hash) then none else Tbl.get T c) ∧
+    (clean hash (clean hash T ps).1 ps).2 = none ∧
+    (∀ c, Tbl.get (clean hash (clean hash T ps).1 ps).1 c = Tbl.get (clean hash T ps).1 c) := by
+  obtain ⟨rs, hk⟩ := has_iff.mp hkh
+  have hnd := chainNames_nodup hwf hinj
+  have hkn : hostportsChain ∉ ps.map (chainName hash) := fun h => by
+    have := names_prefix h; rw [hostports_no_prefix] at this; cases this
+  obtain ⟨T4, h4, g4⟩ := clean_unreferenced hash T ps rs hk hnd hunref
+  have hk4 : Tbl.get T4 hostportsChain = some rs := by rw [g4]; simp [hkn, hk]
+  have hun4 : ∀ p ∈ ps, referenced T4 (chainName hash p) = false := by
+    intro p hp
+    rw [referenced_false_iff]
+    intro k rs' r hg hr
+    rw [g4 k] at hg
+    by_cases hkn' : k ∈ ps.map (chainName hash)
+    · simp [hkn'] at hg
+    · simp only [hkn', if_false] at hg
+      exact referenced_false_iff.mp (hunref p hp) k rs' r hg hr
+  obtain ⟨T5, h5, g5⟩ := clean_unreferenced hash T4 ps rs hk4 hnd hun4
+  rw [h4]; simp only; rw [h5]; simp only
+  refine ⟨trivial, g4, trivial, ?_⟩
+  intro c
+  rw [g5 c, g4 c]
+  by_cases hc : c ∈ ps.map (chainName hash) <;> simp [hc]
 
 /-- A successful ADD followed by the DEL: afterwards nothing of the pod is left — no chain, no KUBE-HOSTPORTS
     rule, no port file — and every chain except KUBE-MARK-MASQ is as before. -/
@@ -325,10 +357,10 @@ theorem add_then_del_leaves_nothing (hash : String → String) (T : Table) (ps :
   · intro p hp; rw [g4]; simp [List.mem_map_of_mem hp]
   · intro c hc hcn; rw [g4]; simp [hc, hcn]
 
-/-- A DEL in which iptables call `j` fails (a DeleteRule or the restore) reports the failure and keeps the port
+/-- A DEL in which iptables call `j` fails (an EnsureChain, a DeleteRule or the restore) reports the failure and keeps the port
     file; the retried DEL then succeeds and leaves nothing of the pod. -/
 theorem faulty_del_then_retry_leaves_nothing (hash : String → String) (T : Table) (ps : List Port) (j : Nat)
-    (hwf : wfPorts ps = true) (hinj : HashInjOn hash (ps.map encode)) (hne : ps ≠ []) (hjl : j ≤ ps.length)
+    (hwf : wfPorts ps = true) (hinj : HashInjOn hash (ps.map encode)) (hne : ps ≠ []) (hjl : j ≤ 2 * ps.length)
     (hkh : Tbl.has T hostportsChain = true)
     (hunref : ∀ p ∈ ps, referenced T (chainName hash p) = false) :
     (delPod hash (some j) (addPod hash none ⟨T, none⟩ ps).1).2 = false ∧
